@@ -384,11 +384,201 @@ def run_projections(ctx, n_exprs):
             ctx.divergence('Lean Sql.eval differs from real SQLite on a projection column', {'expr': s}, model=out.get('ok'), impl=lite)
 
 
+# ---------------------------------------------------------------- second schema: differential oracle beyond the theorem's fragment
+
+def schema2():
+    db = Database()
+    class Group(db.Entity):
+        number = PrimaryKey(int)
+        major = Required(str)
+        students = Set('Student')
+    class Course(db.Entity):
+        name = Required(str)
+        credits = Required(int)
+        students = Set('Student')
+    class Student(db.Entity):
+        name = Required(str)
+        scholarship = Optional(int)
+        dob = Required(datetime.date)
+        enrolled = Optional(datetime.datetime)
+        group = Required(Group)
+        courses = Set(Course)
+        mentor = Optional('Student', reverse='mentees')
+        mentees = Set('Student', reverse='mentor')
+        def is_rich(self):
+            return self.scholarship > 100
+        @property
+        def label(self):
+            return self.name + '-' + self.group.major
+        def older_than(self, d):
+            return self.dob < d
+    db.bind('sqlite', ':memory:')
+    db.generate_mapping(create_tables=True)
+    return db, Group, Course, Student
+
+
+def fill2(rng, Group, Course, Student):
+    groups = [Group(number=n, major=rng.choice(['math', 'cs', 'bio', 'cs'])) for n in rng.sample([101, 102, 103, 104, 201], rng.choice([1, 2, 3, 4]))]
+    courses = [Course(name=nm, credits=rng.choice([0, 1, 2, 3, 5])) for nm in rng.sample(['alg', 'db', 'os', 'ml', 'art'], rng.choice([0, 2, 3, 5]))]
+    studs = []
+    for i in range(rng.choice([0, 1, 3, 6, 9])):
+        st = Student(name=rng.choice(['Ann', 'Bob', 'ann', 'Cy', 'Di', ' Ed ', 'Bo_b']), scholarship=rng.choice([None, None, 0, 50, 100, 101, 300, -3, -4, 7]),
+                     dob=datetime.date(rng.choice([1999, 2000, 2001]), rng.choice([1, 2, 12]), rng.choice([1, 15, 28])),
+                     enrolled=rng.choice([None, datetime.datetime(2020, 9, 1, 8, 30), datetime.datetime(2021, 1, 15, 17, 0, 5), datetime.datetime(2019, 12, 31, 23, 59, 59)]),
+                     group=rng.choice(groups), courses=rng.sample(courses, rng.randint(0, len(courses))) if courses else [])
+        if studs and rng.random() < 0.5: st.mentor = rng.choice(studs)
+        studs.append(st)
+
+
+def nn(xs): return [x for x in xs if x is not None]
+
+
+def templates(rng, S, G, C):
+    """(id, query source evaluated with the names S G C and the parameters, Python reference over the loaded objects, compare mode)"""
+    k = rng.choice([0, 1, 50, 100, 101, -3]); p = rng.choice(['cs', 'math', 'Ann', 'Bob', 'db']); y = rng.choice([1999, 2000, 2001])
+    d = datetime.date(rng.choice([1999, 2000, 2001]), rng.choice([1, 6, 12]), 15); dt = datetime.datetime(2020, rng.choice([1, 9, 12]), 1, 12, 0)
+    P = dict(k=k, p=p, y=y, d=d, dt=dt, k2=rng.choice([1, 2, 3]), ks=rng.choice([(101, 102), (201,), (103, 101, 104)]), td=datetime.timedelta(days=rng.choice([1, 30, 366])))
+    k2 = P['k2']; ks = P['ks']; td = P['td']
+    T = [
+        ('nav-required', "select(s for s in S if s.group.major == p)", lambda S_, G_, C_: [s for s in S_ if s.group.major == p], 'set'),
+        ('nav-optional', "select(s for s in S if s.mentor.name == p)", lambda S_, G_, C_: [s for s in S_ if s.mentor is not None and s.mentor.name == p], 'set'),
+        ('nav-two-steps', "select(s for s in S if s.mentor.group.major == p)", lambda S_, G_, C_: [s for s in S_ if s.mentor is not None and s.mentor.group.major == p], 'set'),
+        ('ref-is-none', "select(s for s in S if s.mentor is None)", lambda S_, G_, C_: [s for s in S_ if s.mentor is None], 'set'),
+        ('ref-projection', "select(s.group for s in S if s.scholarship > k)", lambda S_, G_, C_: {s.group for s in S_ if s.scholarship is not None and s.scholarship > k}, 'set'),
+        ('attr-projection-distinct', "select(s.group.major for s in S)", lambda S_, G_, C_: {s.group.major for s in S_}, 'set'),
+        ('count-collection', "select(g for g in G if count(g.students) > k2)", lambda S_, G_, C_: [g for g in G_ if len(g.students) > k2], 'set'),
+        ('len-collection', "select(s for s in S if len(s.courses) >= k2)", lambda S_, G_, C_: [s for s in S_ if len(s.courses) >= k2], 'set'),
+        ('sum-collection', "select(g for g in G if sum(g.students.scholarship) > k)", lambda S_, G_, C_: [g for g in G_ if sum(nn(x.scholarship for x in g.students)) > k], 'set'),
+        ('max-collection', "select(g for g in G if max(g.students.scholarship) >= k)", lambda S_, G_, C_: [g for g in G_ if nn(x.scholarship for x in g.students) and max(nn(x.scholarship for x in g.students)) >= k], 'set'),
+        ('min-collection', "select(g for g in G if min(g.students.scholarship) < k)", lambda S_, G_, C_: [g for g in G_ if nn(x.scholarship for x in g.students) and min(nn(x.scholarship for x in g.students)) < k], 'set'),
+        ('avg-collection', "select(g for g in G if avg(g.students.scholarship) > k)", lambda S_, G_, C_: [g for g in G_ if nn(x.scholarship for x in g.students) and sum(nn(x.scholarship for x in g.students)) > k * len(nn(x.scholarship for x in g.students))], 'set'),
+        ('exists-subquery', "select(g for g in G if exists(s for s in g.students if s.scholarship is None))", lambda S_, G_, C_: [g for g in G_ if any(s.scholarship is None for s in g.students)], 'set'),
+        ('not-exists-subquery', "select(g for g in G if not exists(s for s in g.students if s.name == p))", lambda S_, G_, C_: [g for g in G_ if not any(s.name == p for s in g.students)], 'set'),
+        ('in-subquery', "select(s for s in S if s.group in (g for g in G if g.major == p))", lambda S_, G_, C_: [s for s in S_ if s.group.major == p], 'set'),
+        ('in-subquery-attr', "select(s for s in S if s.name in (x.name for x in S if x.scholarship > k))", lambda S_, G_, C_: [s for s in S_ if s.name in [x.name for x in S_ if x.scholarship is not None and x.scholarship > k]], 'set'),
+        ('value-in-collection-attr', "select(s for s in S if p in s.courses.name)", lambda S_, G_, C_: [s for s in S_ if any(c.name == p for c in s.courses)], 'set'),
+        ('collection-truth', "select(s for s in S if s.courses)", lambda S_, G_, C_: [s for s in S_ if s.courses], 'set'),
+        ('collection-not', "select(s for s in S if not s.courses)", lambda S_, G_, C_: [s for s in S_ if not s.courses], 'set'),
+        ('reverse-collection', "select(s for s in S if s.mentees)", lambda S_, G_, C_: [s for s in S_ if s.mentees], 'set'),
+        ('count-zero', "select(c for c in C if count(c.students) == 0)", lambda S_, G_, C_: [c for c in C_ if len(c.students) == 0], 'set'),
+        ('groupby-count', "select((g.number, count(g.students)) for g in G)", lambda S_, G_, C_: [(g.number, len(g.students)) for g in G_], 'set'),
+        ('groupby-attr-count', "select((s.group.major, count(s)) for s in S)", lambda S_, G_, C_: [(m, sum(1 for s in S_ if s.group.major == m)) for m in {s.group.major for s in S_}], 'set'),
+        ('groupby-max', "select((s.group, max(s.scholarship)) for s in S)", lambda S_, G_, C_: [(g, max(nn(s.scholarship for s in S_ if s.group == g), default=None)) for g in {s.group for s in S_}], 'set'),
+        ('aggregate-subquery-max', "select(s for s in S if s.scholarship == max(x.scholarship for x in S))", lambda S_, G_, C_: [s for s in S_ if s.scholarship is not None and s.scholarship == max(nn(x.scholarship for x in S_))], 'set'),
+        ('aggregate-correlated-min', "select(s for s in S if s.scholarship > min(x.scholarship for x in S if x.group == s.group))", lambda S_, G_, C_: [s for s in S_ if s.scholarship is not None and s.scholarship > min(nn(x.scholarship for x in S_ if x.group == s.group))], 'set'),
+        ('two-generators', "select((s, c) for s in S for c in s.courses if c.credits > k2)", lambda S_, G_, C_: [(s, c) for s in S_ for c in s.courses if c.credits > k2], 'set'),
+        ('two-generators-in', "select(s for s in S for c in C if c in s.courses and c.credits >= k2)", lambda S_, G_, C_: {s for s in S_ for c in C_ if c in s.courses and c.credits >= k2}, 'set'),
+        ('order-by-attrs', "select(s for s in S).order_by(lambda s: (s.group.number, desc(s.name), s.id))", lambda S_, G_, C_: sorted(sorted(sorted(S_, key=lambda s: s.id), key=lambda s: s.name, reverse=True), key=lambda s: s.group.number), 'list'),
+        ('order-by-desc', "select(s for s in S if s.scholarship is not None).order_by(desc(S.scholarship), S.id)", lambda S_, G_, C_: sorted(sorted([s for s in S_ if s.scholarship is not None], key=lambda s: s.id), key=lambda s: -s.scholarship), 'list'),
+        ('order-by-expression', "select(s for s in S).order_by(lambda s: (len(s.name), s.id))", lambda S_, G_, C_: sorted(S_, key=lambda s: (len(s.name), s.id)), 'list'),
+        ('date-compare', "select(s for s in S if s.dob < d)", lambda S_, G_, C_: [s for s in S_ if s.dob < d], 'set'),
+        ('date-year', "select(s for s in S if s.dob.year == y)", lambda S_, G_, C_: [s for s in S_ if s.dob.year == y], 'set'),
+        ('date-month-day', "select(s for s in S if s.dob.month == 12 or s.dob.day == 15)", lambda S_, G_, C_: [s for s in S_ if s.dob.month == 12 or s.dob.day == 15], 'set'),
+        ('date-plus-timedelta', "select(s for s in S if s.dob + td > d)", lambda S_, G_, C_: [s for s in S_ if s.dob + td > d], 'set'),
+        ('datetime-compare', "select(s for s in S if s.enrolled >= dt)", lambda S_, G_, C_: [s for s in S_ if s.enrolled is not None and s.enrolled >= dt], 'set'),
+        ('datetime-parts', "select(s for s in S if s.enrolled.year == 2020 and s.enrolled.hour < 12)", lambda S_, G_, C_: [s for s in S_ if s.enrolled is not None and s.enrolled.year == 2020 and s.enrolled.hour < 12], 'set'),
+        ('datetime-date', "select(s for s in S if s.enrolled.date() < d.replace(year=2021))", lambda S_, G_, C_: [s for s in S_ if s.enrolled is not None and s.enrolled.date() < d.replace(year=2021)], 'set'),
+        ('datetime-projection', "select((s.id, s.enrolled, s.dob) for s in S)", lambda S_, G_, C_: [(s.id, s.enrolled, s.dob) for s in S_], 'set'),
+        ('hybrid-method', "select(s for s in S if s.is_rich())", lambda S_, G_, C_: [s for s in S_ if s.scholarship is not None and s.is_rich()], 'set'),
+        ('hybrid-method-arg', "select(s for s in S if s.older_than(d))", lambda S_, G_, C_: [s for s in S_ if s.older_than(d)], 'set'),
+        ('hybrid-property', "select(s for s in S if s.label.endswith(p))", lambda S_, G_, C_: [s for s in S_ if s.label.endswith(p)], 'set'),
+        ('hybrid-property-projection', "select((s.id, s.label) for s in S)", lambda S_, G_, C_: [(s.id, s.label) for s in S_], 'set'),
+        ('string-methods', "select(s for s in S if s.name.upper() == p.upper() or s.name.strip() == 'Ed' or s.name.lower().startswith('b'))",
+         lambda S_, G_, C_: [s for s in S_ if s.name.upper() == p.upper() or s.name.strip() == 'Ed' or s.name.lower().startswith('b')], 'set'),
+        ('string-index-slice', "select((s.id, s.name[0], s.name[1:], s.name[:2], s.name[-1], s.name[1:-1]) for s in S)",
+         lambda S_, G_, C_: [(s.id, s.name[0], s.name[1:], s.name[:2], s.name[-1], s.name[1:-1]) for s in S_], 'set'),
+        ('like-metacharacters', "select(s for s in S if '_' in s.name or s.name.startswith(' '))", lambda S_, G_, C_: [s for s in S_ if '_' in s.name or s.name.startswith(' ')], 'set'),
+        ('param-list', "select(s for s in S if s.group.number in ks)", lambda S_, G_, C_: [s for s in S_ if s.group.number in ks], 'set'),
+        ('between', "select(s for s in S if between(s.scholarship, k, 101))", lambda S_, G_, C_: [s for s in S_ if s.scholarship is not None and k <= s.scholarship <= 101], 'set'),
+        ('coalesce', "select(s for s in S if coalesce(s.scholarship, 0) > k)", lambda S_, G_, C_: [s for s in S_ if (s.scholarship if s.scholarship is not None else 0) > k], 'set'),
+        ('power', "select(s for s in S if s.scholarship ** 2 == 49)", lambda S_, G_, C_: [s for s in S_ if s.scholarship is not None and s.scholarship ** 2 == 49], 'set'),
+        ('sum-whole-query', "select(sum(s.scholarship) for s in S if s.group.major == p)", lambda S_, G_, C_: [sum(nn(s.scholarship for s in S_ if s.group.major == p))], 'set'),
+        ('count-distinct', "select(count(s.group) for s in S)", lambda S_, G_, C_: [len({s.group for s in S_})], 'set'),
+        ('floordiv', "select((s.id, s.scholarship // 2) for s in S if s.scholarship is not None)", lambda S_, G_, C_: [(s.id, s.scholarship // 2) for s in S_ if s.scholarship is not None], 'set'),
+        ('mod', "select((s.id, s.scholarship % 3) for s in S if s.scholarship is not None)", lambda S_, G_, C_: [(s.id, s.scholarship % 3) for s in S_ if s.scholarship is not None], 'set'),
+        ('truediv', "select(s for s in S if s.scholarship / 2 > 3)", lambda S_, G_, C_: [s for s in S_ if s.scholarship is not None and s.scholarship / 2 > 3], 'set'),
+        ('slice-stop-minus-one', "select((s.id, s.name[:-1]) for s in S)", lambda S_, G_, C_: [(s.id, s.name[:-1]) for s in S_], 'set'),
+    ]
+    return P, T
+
+
+KNOWN_TEMPLATE_KEYS = {'floordiv': 'floordiv-negative-operand-truncates', 'mod': 'mod-negative-operand-sign', 'truediv': 'truediv-of-integers-is-integer-division',
+                       'slice-stop-minus-one': 'slice-stop-const-minus-one'}
+
+
+def canon2(x):
+    if isinstance(x, core.Entity): return [type(x).__name__, x.get_pk()]
+    if isinstance(x, (tuple, list)): return [canon2(i) for i in x]
+    if isinstance(x, (datetime.datetime, datetime.date)): return x.isoformat()
+    if isinstance(x, float): return round(x, 9) if x != int(x) else int(x)
+    if isinstance(x, Decimal): return str(x)
+    return x
+
+
+def run_schema2(ctx, rounds):
+    rng = ctx.rng
+    for rd in range(rounds):
+        db, G, C, S = schema2()
+        with db_session:
+            fill2(rng, G, C, S)
+        with db_session:
+            S_ = sorted(S.select()[:], key=lambda o: o.id); G_ = sorted(G.select()[:], key=lambda o: o.number); C_ = sorted(C.select()[:], key=lambda o: o.id)
+            P, T = templates(rng, S, G, C)
+            ns = dict(P); ns.update(S=S, G=G, C=C, select=select, count=count, sum=psum, min=pmin, max=pmax, avg=avg, exists=exists, desc=desc,
+                                    between=core.between, coalesce=core.coalesce, len=len)
+            for tid, qsrc, ref, mode in T:
+                forms = [('generator', lambda: eval(qsrc, ns))]
+                m = re.match(r'select\((.*)\)$', qsrc, re.S)
+                if m and '.order_by' not in qsrc: forms.append(('string', lambda: select(m.group(1), ns)))
+                try:
+                    exp = canon2(list(ref(S_, G_, C_)))
+                except Exception as ex:
+                    ctx.count('schema2:reference-raises:%s' % tid); continue
+                if mode == 'set': exp = sorted(exp, key=repr)
+                for form, build in forms:
+                    ctx.case(['schema2', tid, form, {k: repr(v) for k, v in P.items()}, len(S_)], kind='schema2:' + tid)
+                    try:
+                        got = canon2(list(build()))
+                    except Exception as ex:
+                        ctx.count('schema2:%s:%s:raises:%s' % (tid, form, type(ex).__name__)); continue
+                    if mode == 'set': got = sorted(got, key=repr)
+                    if got != exp:
+                        key = KNOWN_TEMPLATE_KEYS.get(tid) or 'schema2:%s:%s' % (tid, form)
+                        extra = [g for g in got if g not in exp][:3]; missing = [x for x in exp if x not in got][:3]
+                        ctx.violation('query over Student-Group-Course returns something else than the Python evaluation (%s, %s form)' % (tid, form),
+                                      {'query': qsrc, 'form': form, 'params': {k: repr(v) for k, v in P.items()},
+                                       'students': [(s.id, s.name, s.scholarship, s.group.number) for s in S_][:12]},
+                                      observed={'not expected': extra, 'rows': len(got)}, expected={'not returned': missing, 'rows': len(exp)}, key=key)
+        db.disconnect()
+
+
+def run_arith_witnesses(ctx):
+    """integer division / modulo / true division on negative and odd operands (outside the theorem's grammar)"""
+    db, E = fresh_db()
+    rows = [dict(BASE_ROW, a=-3), dict(BASE_ROW, a=3), dict(BASE_ROW, a=-4)]
+    load_rows(db, E, rows)
+    with db_session:
+        for key, q, ref in [('floordiv-negative-operand-truncates', 'select((e.id, e.a // 2) for e in E)', lambda a: a // 2),
+                            ('mod-negative-operand-sign', 'select((e.id, e.a % 2) for e in E)', lambda a: a % 2),
+                            ('truediv-of-integers-is-integer-division', 'select((e.id, e.a / 2) for e in E)', lambda a: a / 2)]:
+            ctx.case(['witness', key], kind='witness')
+            try: got = sorted(eval(q, dict(E=E, select=select))[:])
+            except Exception: ctx.count('witness-now-raises:' + key); continue
+            exp = [(i + 1, ref(r['a'])) for i, r in enumerate(rows)]
+            if [tuple(g) for g in got] != exp:
+                ctx.violation('values returned by a projection differ from Python evaluation', {'query': q, 'rows': [r['a'] for r in rows]},
+                              observed=[list(g) for g in got], expected=[list(x) for x in exp], key=key)
+            else: ctx.count('witness-no-longer-fails:' + key)
+    db.disconnect()
+
+
 def run(ctx):
     run_witnesses(ctx)
-    run_projections(ctx, ctx.scale(80, 800))
-    run_fragment(ctx, 'frag', ctx.scale(300, 3000), 4)
-    run_fragment(ctx, 'ext', ctx.scale(200, 2000), 4)
+    run_arith_witnesses(ctx)
+    run_schema2(ctx, ctx.scale(5, 60))
+    run_projections(ctx, ctx.scale(60, 800))
+    run_fragment(ctx, 'frag', ctx.scale(240, 3000), 4)
+    run_fragment(ctx, 'ext', ctx.scale(150, 2000), 4)
 
 
 def replay(ctx, data):
